@@ -1,5 +1,6 @@
 import CollectionsC.Proofs.HashTable
 import CollectionsC.Proofs.HashTableGrowth
+import CollectionsC.Properties.C02
 /-! # C20 (hash-table part) — capacity invariants and doubling growth
 
 Statements and closing proofs only.  The threshold `(size_t)(capacity * load_factor)` is the
@@ -18,11 +19,11 @@ theorem capacity_invariants (c : HCfg) (t : HashTable) (h : t.Inv c) :
 
 /-- the constructor rounds the configured capacity up to a power of two (0 becomes 1), never below
 the request while the request is at most `MAX_POW_TWO` -/
-theorem constructor_capacity (c : HCfg) (cap : Nat) (m : Mem) (t : HashTable)
-    (h : (HashTable.new c cap m).2.1 = some t) :
+theorem constructor_capacity (c : HCfg) (cap : Nat) (tr : Triple) (m : Mem) (t : HashTable)
+    (h : (HashTable.new c cap tr m).2.1 = some t) :
     t.capacity = roundPowTwo cap ∧ (∃ k, k < 32 ∧ t.capacity = 2 ^ k) ∧
     (cap ≤ Gen.MAX_POW_TWO → cap ≤ t.capacity) ∧ t.Inv c := by
-  obtain ⟨_, _, n3, _⟩ := HashTable.new_spec c cap m
+  obtain ⟨_, _, n3, _⟩ := HashTable.new_spec c cap tr m
   obtain ⟨_, q2, _, _, q5, _⟩ := n3 t h
   exact ⟨q5, q2.1, fun hc => by rw [q5]; exact roundPowTwo_ge cap hc, q2⟩
 
@@ -45,14 +46,14 @@ theorem growth_doubles (c : HCfg) (t : HashTable) (k : Key) (v : Nat) (m : Mem) 
 
 /-- one `resize` step is exactly a doubling -/
 theorem resize_doubles (c : HCfg) (t : HashTable) (m : Mem) (h : t.Inv c)
-    (hmax : t.capacity ≠ Gen.MAX_POW_TWO) (ha : m.alloc.1 = true) :
+    (hmax : t.capacity ≠ Gen.MAX_POW_TWO) (ha : (m.allocT t.triple).1 = true) :
     (t.resize c (t.capacity <<< 1) m).2.1.capacity = 2 * t.capacity :=
   ((HashTable.resize_spec c t m h hmax).2 ha).2.2.2.2.1
 
 /-- removal and `remove_all` never change the capacity or the threshold -/
-theorem removal_keeps_capacity (c : HCfg) (t : HashTable) (k : Key) (m : Mem) (h : t.Inv c) (hl : t.size + 2 ≤ m.live) :
+theorem removal_keeps_capacity (c : HCfg) (t : HashTable) (k : Key) (m : Mem) (h : t.Inv c) (hl : t.size + 2 ≤ liveOf m t.triple) :
     (t.remove c k m).2.2.1.capacity = t.capacity ∧ (t.removeAll m).1.capacity = t.capacity := by
-  obtain ⟨_, _, _, _, _, _, _, p8, _⟩ := HashTable.remove_spec c t k m h (by omega)
+  obtain ⟨_, _, _, _, _, _, _, p8, _⟩ := HashTable.remove_spec c t k m h (fun _ => by omega)
   obtain ⟨_, _, _, r4, _⟩ := HashTable.removeAll_spec c t m h (by omega)
   exact ⟨p8, r4⟩
 
@@ -64,11 +65,12 @@ happened, hence `j ≤ log2 (8 · (size + 1))` with `size ≤ initial size + n`.
 theorem reallocations_logarithmic (c : HCfg) (hthr : ∀ x, x / 4 ≤ c.thr x) (t : HashTable)
     (kvs : List (Key × Nat)) (m : Mem) (h : t.Inv c) :
     ∃ j, (HashTable.addMany c t kvs m).1.capacity = t.capacity * 2 ^ j ∧
-      (HashTable.addMany c t kvs m).2.nalloc = m.nalloc + j + ((HashTable.addMany c t kvs m).1.size - t.size) ∧
+      allocsOf (HashTable.addMany c t kvs m).2 t.triple = allocsOf m t.triple + j + ((HashTable.addMany c t kvs m).1.size - t.size) ∧
+      t.size ≤ (HashTable.addMany c t kvs m).1.size ∧
       (HashTable.addMany c t kvs m).1.size ≤ t.size + kvs.length ∧
       j ≤ Nat.log2 (8 * ((HashTable.addMany c t kvs m).1.size + 1)) := by
   obtain ⟨j, h1, h2, h3, h4, h5⟩ := HashTable.addMany_count c hthr t kvs m h
-  refine ⟨j, h1, h2, h4, ?_⟩
+  refine ⟨j, h1, h2, h3, h4, ?_⟩
   rcases h5 with h5 | h5
   · omega
   · have hc : 0 < t.capacity := cap_pos t h.1
@@ -94,7 +96,7 @@ theorem load_factor_respected (c : HCfg) (t : HashTable) (k : Key) (v : Nat) (m 
 
 /-- `growth_strict`: every growth step strictly increases the capacity -/
 theorem growth_strict (c : HCfg) (t : HashTable) (m : Mem) (h : t.Inv c)
-    (hmax : t.capacity ≠ Gen.MAX_POW_TWO) (ha : m.alloc.1 = true) :
+    (hmax : t.capacity ≠ Gen.MAX_POW_TWO) (ha : (m.allocT t.triple).1 = true) :
     t.capacity < (t.resize c (t.capacity <<< 1) m).2.1.capacity := by
   rw [resize_doubles c t m h hmax ha]
   have := cap_pos t h.1
@@ -115,7 +117,7 @@ the bound is derived directly on the model.  `n` insertions into a table with `s
 theorem appends_realloc_log (c : HCfg) (hthr : ∀ x, x / 4 ≤ c.thr x) (t : HashTable)
     (kvs : List (Key × Nat)) (m : Mem) (h : t.Inv c) :
     ∃ j, (HashTable.addMany c t kvs m).1.capacity = t.capacity * 2 ^ j ∧
-      (HashTable.addMany c t kvs m).2.nalloc = m.nalloc + j + ((HashTable.addMany c t kvs m).1.size - t.size) ∧
+      allocsOf (HashTable.addMany c t kvs m).2 t.triple = allocsOf m t.triple + j + ((HashTable.addMany c t kvs m).1.size - t.size) ∧
       j ≤ Nat.log2 (t.size + kvs.length + 1) + 3 := by
   obtain ⟨j, h1, h2, h3, h4, h5⟩ := HashTable.addMany_count c hthr t kvs m h
   refine ⟨j, h1, h2, ?_⟩
@@ -133,9 +135,22 @@ theorem appends_realloc_log (c : HCfg) (hthr : ∀ x, x / 4 ≤ c.thr x) (t : Ha
       conv => lhs; rw [this, Nat.pow_add]
     omega
 
+/-- the capacity invariants hold in every state a history reaches (C02's history theorem gives the
+invariant; this is its C20 reading) -/
+theorem history_capacity_invariants (c : HCfg) (ops : List Spec.Map.Op) (t : HashTable) (m : Mem) (h : t.Inv c)
+    (hl : t.size + 2 ≤ liveOf m t.triple) :
+    (∃ k, k < 32 ∧ (t.run c ops m).2.2.1.capacity = 2 ^ k) ∧
+    (t.run c ops m).2.2.1.buckets.length = (t.run c ops m).2.2.1.capacity ∧
+    (t.run c ops m).2.2.1.threshold = c.thr (t.run c ops m).2.2.1.capacity := by
+  have hi := (C02.history_refines c ops t m t.abs h hl (List.Perm.refl _)).2.2.1
+  exact ⟨hi.1, hi.2.1, hi.2.2.2.2.2⟩
+
+/-- the hypothesis of the logarithmic bounds is satisfiable: every load factor ≥ 0.25, e.g. 0.75 -/
+example : ∀ x, x / 4 ≤ (fun cap => cap * 3 / 4) x := fun x => by simp only; omega
+
 /-- non-vacuity: capacity 1, load factor 0.25 (`thr 1 = thr 2 = 0`, `thr 4 = 1`): the first insertion
 doubles twice -/
-example : ((HashTable.mk 1 0 0 [[]]).add ⟨fun k => k, fun cap => cap / 4, fun cap => cap * 2⟩ (some 5) 50 { live := 2 }).2.1.capacity = 4 := by
+example : ((HashTable.mk 1 0 0 [[]] .conf).add ⟨fun k => k, fun cap => cap / 4, fun cap => cap * 2⟩ (some 5) 50 { live := 2 }).2.1.capacity = 4 := by
   decide
 
 end CC.Properties.C20Hash
